@@ -400,4 +400,4 @@ def replay(path, seed):
         return 1 if (why or diff) else 0
     if isinstance(inp, list) and len(inp) == 17:
         print("summarize_final:", vlib.run_impl(binary, "dispatcher", [dict(op="final", stats=inp)])[0])
-    return 0
+    return 2   # not a kind of record this function knows how to replay (the driver then re-runs the check)
